@@ -223,9 +223,10 @@ def run(ctx) -> None:
     stage("buffer: hand-over loop in order", bool(fors) and not any(isinstance(f.iter, ast.Call) and dotted(f.iter.func) in ("reversed", "sorted") for f in fors), "hand-over loop iterates a reordered view", rf.loc)
     dq = P.cls("DelayedQueue")
     qops = {}
+    own = P.public_owners("DelayedQueue")  # an operation in a private helper counts for the public operations that call the helper
     for m, mf in dq.methods.items():
         for k, v in list_ops(mf.node, "self._queue").items():
-            qops.setdefault(k, []).append(m)
+            qops.setdefault(k, []).extend(own[m])
     stage("delay queue: append/popleft", "put" in qops.get("append", []) and "get" in qops.get("popleft", []) and not any(k in qops for k in ORDER_BAD if k != "remove"), f"deque operations: {qops}", dq.loc, qops)
     # the delay queue hands out exactly the element it validated (shared instance with C17/C08): otherwise an element pulled out
     # by remove() is delivered again, or the element that took its place is popped and dropped
